@@ -318,11 +318,13 @@ class SimFI:
             if kind == "bank":
                 inner = ("BANKACCTINFO", [("BANKACCTFROM", [("BANKID", a["bankid"]), ("ACCTID", a["acctid"]),
                                                             ("ACCTTYPE", a["accttype"])]),
-                                          ("SUPTXDL", "Y"), ("XFERSRC", "N"), ("XFERDEST", "N"),
+                                          ("SUPTXDL", a.get("suptxdl", "Y")), ("XFERSRC", a.get("xfersrc", "N")),
+                                          ("XFERDEST", a.get("xferdest", "N")),
                                           ("SVCSTATUS", a["status"])])
             elif kind == "cc":
                 inner = ("CCACCTINFO", [("CCACCTFROM", [("ACCTID", a["acctid"])]),
-                                        ("SUPTXDL", "Y"), ("XFERSRC", "N"), ("XFERDEST", "N"),
+                                        ("SUPTXDL", a.get("suptxdl", "Y")), ("XFERSRC", a.get("xfersrc", "N")),
+                                        ("XFERDEST", a.get("xferdest", "N")),
                                         ("SVCSTATUS", a["status"])])
             elif kind == "bp":      # bill-payment listing of a bank account: not a statement account
                 inner = ("BPACCTINFO", [("BANKACCTFROM", [("BANKID", a["bankid"]), ("ACCTID", a["acctid"]),
@@ -330,7 +332,7 @@ class SimFI:
                                         ("SVCSTATUS", a["status"])])
             else:
                 inner = ("INVACCTINFO", [("INVACCTFROM", [("BROKERID", a["brokerid"]), ("ACCTID", a["acctid"])]),
-                                         ("USPRODUCTTYPE", "OTHER"), ("CHECKING", "N"),
+                                         ("USPRODUCTTYPE", a.get("product", "OTHER")), ("CHECKING", a.get("checking", "N")),
                                          ("SVCSTATUS", a["status"])])
             if a.get("group") and infos and not any(k[0] == inner[0] for k in infos[-1][1]):
                 infos[-1][1].append(inner)        # *ACCTINFOs of different classes in one ACCTINFO aggregate
@@ -338,6 +340,8 @@ class SimFI:
             kids = []
             if a.get("desc"):
                 kids.append(("DESC", a["desc"]))
+            if a.get("phone"):
+                kids.append(("PHONE", a["phone"]))
             kids.append(inner)
             infos.append(("ACCTINFO", kids))
         seen.sent_status = 0
